@@ -2,7 +2,12 @@
 ASSUMPTIONS = ["bounded layer: frames are observed (directory snapshots, content digests) and faults injected at every "
                "individual python-level write-class call (open for write, file.write, mkdir, makedirs, rmtree) of in-process "
                "runs (controllable pool); real I/O faults below the python call boundary and interpreter exit status are assumed"]
-TRUSTED = ["os.path semantics, interpreter exit status, pool exception propagation"]
+ASSUMPTIONS += ["path texts contain no empty, '.' or '..' components ('/' separator): os.path.normpath only removes a trailing separator",
+                "combine's documented default is <name1><name2> in the working directory: 'the working directory is not inside an input "
+                "directory' is a precondition", "mandoline's default name is assumed to differ from the input's name (computed by string "
+                "operations the path algebra does not look into); only 'beside the input' is proved for it",
+                "fragment extraction: only the statements computing the output paths are executed (the rest of each function is dropped)"]
+TRUSTED = ["os.path semantics as modelled by the structural path algebra (pyvc.libos)", "interpreter exit status, pool exception propagation"]
 from props.paths import path_tasks, path_canaries
 
 
